@@ -1035,7 +1035,7 @@ def _k3_discharge(ctx, f, s, base, idx, atoms, av):
         return True, "index enumerates the same sequence"
     if idx[0] == "loopindex":
         li = ctx.A.paths(f).loops.get(idx[1])
-        if li is not None and li.iter is not None and strip_mut(li.iter) == base and not getattr(li, "enum_start", None):
+        if li is not None and li.iter is not None and strip_mut(li.iter) == base and getattr(li, "enum_start", "absent") in (None, ("const", 0)):
             return True, "index enumerates the same sequence"
     # juniper tables
     if f.module.name == JS and base[0] == "global" and base[2] in ("ALPHA_NUM", "EXTRA", "NUM_ALPHA", "ENCODING"):
